@@ -161,3 +161,64 @@ def bcopy_rule(chk, cid, prog, cfgname):
         chk.violate(cid, 'user_bcopy:covers-all-bytes', loc(f, f.body), f.name,
                     'the overlapping move must copy every byte of [dest, dest+bytes): start at dest+bytes-1, step down, continue while d >= dest; ' + why, cfgname=cfgname)
     return 1
+
+
+def copy_helper_rule(chk, cid, prog, cfgname):
+    """copy_mem_int / copy_mem_<elt>(howmany, old, new) carry the old contents over when an array is re-allocated: they must move `howmany` *elements*.
+    Accepted shapes: a counting loop `for (i = 0; i < howmany; i++) new[i] = old[i]` over pointers to the element type, or
+    memcpy/memmove(new, old, howmany * sizeof(element))."""
+    want = {'copy_mem_int': {'int_t'}, 'copy_mem_float': {'float'}, 'copy_mem_double': {'double'}, 'copy_mem_singlecomplex': {'singlecomplex'},
+            'copy_mem_doublecomplex': {'doublecomplex'}}
+    n = 0
+    for fname, elts in sorted(want.items()):
+        f = prog.func(fname)
+        if f is None:
+            from ..run import AnalysisBroken
+            raise AnalysisBroken('%s not found' % fname)
+        chk.saw(unit=f.unit, func=f.unit + ':' + f.name)
+        cnt = f.params[0][1]
+        n += 1
+        ok = False
+        why = 'no element-wise copy of `howmany` entries found'
+        for x in f.body.walk():
+            if x.k == 'For':
+                c = strip(x.c[1])
+                if c.k == 'Binary' and c.a['op'] == '<' and strip(c.c[1]).k == 'Ref' and strip(c.c[1]).a.get('id') == cnt and strip(c.c[0]).k == 'Ref':
+                    iv = strip(c.c[0]).a['id']
+                    init = strip(x.c[0])
+                    starts0 = init.k == 'Assign' and strip(init.c[0]).k == 'Ref' and strip(init.c[0]).a['id'] == iv and const_value(init.c[1]) == 0
+                    for y in x.c[3].walk():
+                        if y.k == 'Assign' and y.a['op'] == '=':
+                            l, r = strip(y.c[0]), strip(y.c[1])
+                            if l.k == 'Index' and r.k == 'Index' and strip(l.c[1]).k == 'Ref' and strip(r.c[1]).k == 'Ref' and \
+                                    strip(l.c[1]).a['id'] == iv and strip(r.c[1]).a['id'] == iv:
+                                et = (l.t or '').replace('const ', '').strip()
+                                if starts0 and et in elts and (r.t or '').replace('const ', '').strip() in elts:
+                                    ok = True
+                                else:
+                                    why = 'the copy loop moves elements of type %s (want %s) or does not start at 0' % (et, sorted(elts))
+            if x.k == 'Call' and callee_name(x) in ('memcpy', 'memmove') and len(x.c) == 4:
+                sz = strip(x.c[3])
+                while sz.k == 'Cast':
+                    sz = strip(sz.c[0])
+                fac = []
+
+                def flat(e):
+                    e = strip(e)
+                    if e.k == 'Binary' and e.a['op'] == '*':
+                        flat(e.c[0]); flat(e.c[1])
+                    else:
+                        fac.append(e)
+                flat(sz)
+                has_cnt = any(y.k == 'Ref' and y.a.get('id') == cnt for y in fac)
+                has_sz = any(y.k == 'Sizeof' and (y.a.get('argtype') or '').strip() in elts for y in fac)
+                if has_cnt and has_sz and len(fac) == 2:
+                    ok = True
+                else:
+                    why = 'the byte count `%s` of the block copy is not howmany * sizeof(%s)' % (pretty(x.c[3])[:40], '/'.join(sorted(elts)))
+        if ok:
+            chk.ok(cid, '%s:copies-howmany-elements' % fname)
+        else:
+            chk.violate(cid, '%s:copies-howmany-elements' % fname, loc(f, f.body), fname,
+                        '%s must carry `howmany` elements of the old array over to the new one: %s' % (fname, why), cfgname=cfgname)
+    return n
